@@ -146,6 +146,10 @@ def gen_fixed(rng, den):
             entries.append(["signal", n, compatible_multi(n, len(e[0])) if rng.random() < 0.9 else rnd(len(e[0]))])
         else:
             entries.append([rng.choice(["sequence", "strand", "structure", "signal"]), "nosuch" + str(rng.randrange(3)), rnd(rng.choice([1, 3, 5]))])
+        if entries[-1][0] == "structure" and "+" in entries[-1][2] and rng.random() < 0.25:
+            # the strand break one position off: the total length is right, the lengths of two strands are wrong
+            t = entries[-1][2]; k = t.index("+")
+            if k > 1: entries[-1][2] = t[:k - 1] + "+" + t[k - 1] + t[k + 1:]
         if rng.random() < 0.07 and entries[-1][2]:
             entries[-1][2] = entries[-1][2][:-1] if rng.random() < 0.5 and len(entries[-1][2]) > 1 else entries[-1][2] + "A"      # wrong length
         if not entries[-1][2]: entries[-1][2] = "N"
